@@ -123,7 +123,7 @@ def split(spec):
 
 
 def make(pre, post, cls, L, optsd, oracle, ml=False, lmin=0, twin=False, node_of=None,
-         accept_exit=False, splice=True):
+         accept_exit=False, splice=True, win=None):
     """oracle(h0, doc, result_flat, diags) -> None / failure message.
     returns (prop, concrete)"""
     from vf.offrun import flatten
@@ -173,11 +173,16 @@ def make(pre, post, cls, L, optsd, oracle, ml=False, lmin=0, twin=False, node_of
             return D.SKIP
         # splice=False: the scanner runs symbolically on the whole text (needed where the
         # scanner looks ahead across the hole: \\begin .. {verbatim}, comments, \\verb)
-        sk = Sketch([pre, h, post]) if splice else pre + h + post
+        if win is not None:
+            # partial splice: a window around the hole is scanned symbolically as one text
+            a, b = win
+            sk = Sketch([pre[:len(pre) - a], pre[len(pre) - a:] + h + post[:b], post[b:]])
+        else:
+            sk = Sketch([pre, h, post]) if splice else pre + h + post
         exited = None
         with yal.symbolic_stderr() as rec:
             try:
-                res = tex2txt.tex2txt(sk, opts, ml, install if splice else None)
+                res = tex2txt.tex2txt(sk, opts, ml, install if (splice or win) else None)
             except SystemExit as ex:
                 exited = ex
         if exited is None:
